@@ -250,7 +250,7 @@ func runC09(c *Ctx) {
 	// every issuing entry point decides "this call succeeded" from walletdb.Update's result: it must be the commit's
 	// a dry-run import (itself an address-issuing call) never leaves its never-persisted account in the cache
 	c.Borrow(func(c2 *Ctx) { checkDryRun(c2, "C09-R2") }, "C09-R2", "C09-R2", func(k string) bool {
-		return strings.HasPrefix(k, "account-dry-run-always-invalidates-cache")
+		return strings.HasPrefix(k, "account-dry-run-always-invalidates-cache") || strings.HasPrefix(k, "only-a-dry-run-rolls-back")
 	})
 	c.Borrow(runC11, "C11-R1", "C09-R2", func(k string) bool {
 		return strings.HasPrefix(k, "Update-success-returns-Commit-result") || strings.HasPrefix(k, "Update-returns-function-error")
@@ -258,6 +258,7 @@ func runC09(c *Ctx) {
 	checkInvalidationAlwaysEvicts(c, "C09-R2")
 	checkIssuingTransactionKeepsAccountCache(c, "C09-R2")
 	checkScopeNamespaceCreatedExclusively(c, "C09-R2")
+	checkNoCommitHookReleasesIssuingMutex(c, "C09-R1")
 	checkSameNamedParametersNotCrossed(c, "C09-R2", "waddrmgr") // the persisted next indices of the two branches are not exchanged
 	checkDryRunFlagForwardedOrFalse(c, "C09-R2")
 	// nothing but the commit callback (and the loader) moves the in-memory next index: a reader that writes a
